@@ -25,13 +25,14 @@ class DatasetAxes(Axes):
         self._ds = ds  # attached dataset
 
     def __setitem__(self, key, item):
+        name = self[key].name # the axis may be given by position
         super(DatasetAxes, self).__setitem__(key, item)
         # also apply the change to the contained DimArrays
         for k in self._ds.keys():
             dima = self._ds[k]
-            if key not in dima.dims: 
+            if name not in dima.dims: 
                 continue
-            dima.axes[key] = self[key]
+            dima.axes[name] = self[key]
 
     def __deepcopy__(self, memo):
         ' deepcopy interface otherwise fails '
